@@ -112,7 +112,7 @@ func (h *HistSys) curReplicas(w *world.World) int {
 	switch h.Class.Kind {
 	case "sts", "stsmulti", "ststwin", "stspool", "stspfx":
 		return w.Replicas("StatefulSet", "ns", "a")
-	case "dp", "dppool":
+	case "dp", "dppool", "dppoolu":
 		return w.Replicas("Deployment", "ns", "d")
 	}
 	return 99
@@ -122,10 +122,18 @@ func (h *HistSys) curReplicas(w *world.World) int {
 func (h *HistSys) Enabled(w *world.World) []Op {
 	var ops []Op
 	rep := h.curReplicas(w)
+	live := 0
+	for i := 0; i < h.NPods; i++ {
+		if w.Alive(h.pod(i).Key()) {
+			live++
+		}
+	}
 	for i := 0; i < h.NPods; i++ {
 		p := w.Pods[h.pod(i).Key()]
 		if p == nil {
-			if h.Ops["create"] && rep >= 0 && (i < rep || h.Class.Kind == "bare" || h.Class.Kind == "barepfx") {
+			// (the pods of a deployment have no index: any pod name may be created while fewer pods than replicas are alive)
+			dpRoom := (h.Class.Kind == "dp" || h.Class.Kind == "dppool" || h.Class.Kind == "dppoolu") && live < rep
+			if h.Ops["create"] && rep >= 0 && (i < rep || dpRoom || h.Class.Kind == "bare" || h.Class.Kind == "barepfx") {
 				ops = append(ops, Op{Kind: "create", A: i})
 			}
 			continue
